@@ -14,19 +14,27 @@ in_repo = "--in-repo" in sys.argv
 ids = args or sorted(d for d in os.listdir(f"{ROOT}/seeded") if os.path.exists(f"{ROOT}/seeded/{d}/meta.json")
                     and "obsolete" not in json.load(open(f"{ROOT}/seeded/{d}/meta.json")))
 
+def apply_patch(tree, patch):
+    """git apply; if hook lines added later shifted the context, fall back to patch(1) with fuzz"""
+    r = subprocess.run(["git", "-C", tree, "apply", patch], capture_output=True, text=True)
+    if r.returncode == 0: return
+    r2 = subprocess.run(["patch", "-p1", "-F3", "--no-backup-if-mismatch", "-s", "-i", patch], cwd=tree, capture_output=True, text=True)
+    if r2.returncode != 0:
+        raise RuntimeError(f"patch {patch} does not apply to {tree}: {r.stderr} {r2.stdout} {r2.stderr}")
+
 def run_one(sid):
     d = f"{ROOT}/seeded/{sid}"
     meta = json.load(open(f"{d}/meta.json"))
     props = [meta["property"]] + meta.get("also_run", [])
     res = {}
     if in_repo:
-        subprocess.run(["git", "-C", "/repo", "apply", f"{d}/patch.diff"], check=True)
+        apply_patch("/repo", f"{d}/patch.diff")
         env = dict(os.environ)
     else:
         wt = f"/tmp/seedrun-{sid}"
         subprocess.run(["git", "-C", "/repo", "worktree", "remove", "--force", wt], capture_output=True)
         subprocess.run(["git", "-C", "/repo", "worktree", "add", "--detach", wt, "HEAD"], check=True, capture_output=True)
-        subprocess.run(["git", "-C", wt, "apply", f"{d}/patch.diff"], check=True)
+        apply_patch(wt, f"{d}/patch.diff")
         env = dict(os.environ, VERIF_REPO=wt, VERIF_SKIP_LAKE="1")
     try:
         for p in props:
